@@ -119,3 +119,32 @@ Example C11_hypotheses_inhabited :
   outcome_path (check_top Repaired 10 ex_env "T"%string ex_bad) = "T.next.c.l"%string.
 Proof. vm_compute. repeat split. Qed.
 Print Assumptions C11_hypotheses_inhabited.
+
+(** ------------------------------------------------------------------
+    Constraints applied IN SERIES at reference sites (Check/Serial.v): the checker folds its set_range over the
+    constraints of the reference chain, outermost parent first; the specification [admits_series] is X.680's "a value
+    satisfies every constraint of the series, an extensible constraint excludes nothing".  On legal series of any
+    length the repaired rule (a bound written MIN / MAX leaves the inherited bound in force) equals the specification;
+    the rule as it was is refuted by  P ::= INTEGER (0..MAX), D ::= P (MIN..5), value -1  (defect repaired in 8b90e74).
+    harness/c11.py evaluates every generated series in Coq and compares with /repo at every bound +-1. *)
+From Asn1V Require Check.Serial Check.SerialProofs.
+
+Theorem C11_serial_keep_bounds_agrees : ltac:(let T := type of Asn1V.Check.SerialProofs.serial_keep_bounds_agrees in exact T).
+Proof. exact Asn1V.Check.SerialProofs.serial_keep_bounds_agrees. Qed.
+Print Assumptions C11_serial_keep_bounds_agrees.
+
+Theorem C11_serial_head_agrees : ltac:(let T := type of Asn1V.Check.SerialProofs.serial_head_agrees in exact T).
+Proof. exact Asn1V.Check.SerialProofs.serial_head_agrees. Qed.
+Print Assumptions C11_serial_head_agrees.
+
+Theorem C11_serial_head_refuted : ltac:(let T := type of Asn1V.Check.SerialProofs.serial_head_refuted in exact T).
+Proof. exact Asn1V.Check.SerialProofs.serial_head_refuted. Qed.
+Print Assumptions C11_serial_head_refuted.
+
+Theorem C11_serial_ext_child_keeps_parent : ltac:(let T := type of Asn1V.Check.SerialProofs.serial_ext_child_keeps_parent in exact T).
+Proof. exact Asn1V.Check.SerialProofs.serial_ext_child_keeps_parent. Qed.
+Print Assumptions C11_serial_ext_child_keeps_parent.
+
+Theorem C11_serial_nonext_child_in_force : ltac:(let T := type of Asn1V.Check.SerialProofs.serial_nonext_child_in_force in exact T).
+Proof. exact Asn1V.Check.SerialProofs.serial_nonext_child_in_force. Qed.
+Print Assumptions C11_serial_nonext_child_in_force.
